@@ -9,7 +9,8 @@ pub fn doc_positions(op: &str) -> Option<&'static [usize]> {
     Some(match op {
         "arrlen" | "getidx" | "getname" | "getkp" | "keys" | "each" | "vals" | "typeof" | "asnull" | "asbool"
         | "asnum" | "asstr" | "asi64" | "asu64" | "isarr" | "isobj" | "tobool" | "toi64" | "tou64" | "existsall"
-        | "existsany" | "travstr" | "tostr" | "topretty" | "pathexists" | "pathmatch" | "toserde" | "toserdeobj" => &[1],
+        | "existsany" | "travstr" | "tostr" | "topretty" | "pathexists" | "pathmatch" | "toserde" | "toserdeobj"
+        | "isnull" | "isbool" | "isnum" | "isstr" | "isi64" | "isu64" | "isf64" | "asf64" | "tof64" | "caststr" => &[1],
         "contains" | "cmp" | "overlap" => &[1, 2],
         "cmpkey" | "delname" | "delidx" | "delkp" | "objdel" | "objpick" | "strip" | "distinct" | "getpath"
         | "getpathfirst" | "getpatharray" => &[2],
